@@ -27,6 +27,9 @@ def render(prog, rng):
             defs.append("%s %s {\n%s\n}\n" % (kind, st, "\n".join(lines)))
         for s, ms in (f["services"] or {}).items():
             defs.append("service %s {\n%s\n}\n" % (s, "\n".join("  void %s()" % m for m in ms)))
+        # every file has the same two aliases (MCBreak's field types TI and TL): a field that moves onto or off an alias
+        # changes its type name, whatever the alias stands for
+        defs += ["typedef i32 TI\n", "typedef list<i32> TL\n"]
         rng.shuffle(defs)                      # the order of definitions in a file must not matter
         files[path] = "".join(defs) or "// empty\n"
     return files
@@ -109,6 +112,8 @@ def run(ctx):
     else:
         cfg = open(os.path.join(vlib.SPECS, "MCBreak.cfg")).read()
         mod = 12 if ctx.quick() else 1
+        if ctx.quick():
+            cfg = cfg.replace("MultiMod = 1", "MultiMod = 2")        # half of the multi-diagnostic pairs (all of them took 150 s)
         if not ctx.quick():
             cfg = cfg.replace("MaxEdits = 2", "MaxEdits = 3").replace("MultiMod = 1", "MultiMod = 12")
             mod = 25
